@@ -111,6 +111,23 @@ def check_names(ctx, repo, rule="R2"):
         ctx.violation(rule, "_check_names:predicate", "the separator test is not `'__' in name` (%s): names containing `__` are accepted" % S[:160],
                       ctx.loc(mod, fn), witness={"names": ["a__b"]})
         return
+    # the separator test is applied to each *name* (the variable iterating over the names), not to the collection
+    pn = astq.param_names(fn, skip_self=True)
+    coll = pn[0] if pn else "names"
+    itervars = set()
+    for n in ast.walk(fn):
+        gens = n.generators if isinstance(n, (ast.ListComp, ast.GeneratorExp, ast.SetComp)) else ([n] if isinstance(n, ast.For) else [])
+        for g_ in gens:
+            it_, tg_ = (g_.iter, g_.target)
+            if dotted(it_) == coll and isinstance(tg_, ast.Name):
+                itervars.add(tg_.id)
+    for n in ast.walk(fn):
+        if isinstance(n, ast.Compare) and len(n.ops) == 1 and isinstance(n.ops[0], (ast.In, ast.NotIn)) and astq.const_value(n.left) == "__":
+            subj = dotted(n.comparators[0])
+            if subj not in itervars:
+                ctx.violation(rule, "_check_names:predicate", "the separator test `%s` looks for '__' in `%s`, not in each component name: a name such "
+                              "as 'a__b' is accepted" % (ast.unparse(n), subj), ctx.loc(mod, n), witness={"names": ["a__b"]})
+                return
     need = {"duplicate names": U, "names equal to constructor arguments (get_params(deep=False))": C, "names containing `__`": S}
     spec = disj(neg(atom(U or "?")), atom(C or "?"), atom(S or "?"))
     _decide(ctx, rule, "_check_names:predicate", pc.raises, spec, need,
@@ -726,7 +743,67 @@ def check_data_binding(ctx, repo):
     ctx.count("R1_data_bindings", n)
 
 
+def check_fh_init(ctx, repo):
+    """ForecastingHorizon(values, is_relative): the value container must be of a type admitted for the *declared* kind."""
+    FHP = "sktime/forecasting/base/_fh.py"
+    mod = repo.module(FHP)
+    fn = repo.func(FHP, "ForecastingHorizon.__init__")
+    pc = PathConditions(fn, Atomizer())
+    got = _direct_raises(pc)
+    ats = atoms_of(got)
+    B = _pick(ats, lambda a: a.startswith("isinstance(is_relative") and a.endswith("bool)"))
+    R = _pick(ats, lambda a: a == "is_relative")
+    TR = _pick(ats, lambda a: a.startswith("in(type(values") and a.endswith("RELATIVE_TYPES)"))
+    TA = _pick(ats, lambda a: a.startswith("in(type(values") and a.endswith("ABSOLUTE_TYPES)"))
+    need = {"isinstance(is_relative, bool)": B, "is_relative": R, "type(values) in RELATIVE_TYPES": TR, "type(values) in ABSOLUTE_TYPES": TA}
+    if B is not None and R is not None and (TR is None) != (TA is None) and len(pc.raise_sites) >= 3:
+        ctx.violation("R2", "ForecastingHorizon.__init__:kind-compat", "both kinds are tested against the same type table (%s): a container "
+                      "admitted only for the other kind is accepted (rejection condition %s)" % (TR or TA, show(got)[:300]), ctx.loc(mod, fn),
+                      witness={"values": "pd.PeriodIndex" if TR is None else "relative steps", "is_relative": TR is None})
+        return
+    A = lambda x: atom(x or "?")  # noqa: E731
+    spec = disj(neg(A(B)), conj(A(R), neg(A(TR))), conj(neg(A(R)), neg(A(TA))))
+    _decide(ctx, "R2", "ForecastingHorizon.__init__:kind-compat", got, spec, need,
+            "rejects exactly: non-bool is_relative, values of a type not admitted for the declared kind (relative / absolute)",
+            ctx.loc(mod, fn), "ForecastingHorizon.__init__", sites=(_n_sites(repo, mod, repo.cls(FHP + ":ForecastingHorizon"), fn, pc), 3))
+    # the tested container is the validated one
+    cv = [n for n in astq.walk_no_nested(fn) if isinstance(n, ast.Assign) and isinstance(n.value, ast.Call) and astq.call_name(n.value) == "_check_values"]
+    ctx.check(bool(cv) and all(dotted(n.targets[0]) == "values" and n.value.args and dotted(n.value.args[0]) == "values" for n in cv), "R2",
+              "ForecastingHorizon.__init__:validated-values", "the values tested and stored are _check_values(values)",
+              "ForecastingHorizon.__init__ does not rebind `values = _check_values(values)` before the kind test / store", ctx.loc(mod, fn))
+
+
+def check_names_callers(ctx, repo, rule="R2"):
+    """Every caller hands `_check_names` the component names as they are: a de-duplicated / re-ordered collection makes the
+    uniqueness test vacuous."""
+    n = 0
+    for c in repo.classes.values():
+        for fn in c.methods.values():
+            for call in astq.calls(fn):
+                if astq.call_name(call) != "_check_names" or not (isinstance(call.func, ast.Attribute) and dotted(call.func.value) == "self"):
+                    continue
+                n += 1
+                arg = call.args[0] if call.args else None
+                e = arg
+                if isinstance(e, ast.Name):
+                    vals = astq.assigned_values(fn, e.id)
+                    e = vals[-1] if vals else e
+                lossy = None
+                for x in ast.walk(e) if e is not None else ():
+                    if isinstance(x, ast.Call) and astq.call_name(x) in ("set", "frozenset", "dict", "fromkeys", "unique", "OrderedDict"):
+                        lossy = astq.call_name(x)
+                    if isinstance(x, (ast.Set, ast.SetComp, ast.DictComp)):
+                        lossy = "a set/dict display"
+                ctx.check(lossy is None, rule, "%s.%s:_check_names-argument" % (c.qual, fn.name), "the names are handed over as they are",
+                          "%s.%s passes `%s` to _check_names: duplicates collapse in %s before the uniqueness test can reject them" % (
+                              c.name, fn.name, ast.unparse(arg) if arg is not None else "?", lossy), ctx.loc(c.module, call),
+                          witness={"names": ["a", "a"]})
+    ctx.count("check_names_callers", n)
+
+
 def run_all(ctx, repo):
+    check_fh_init(ctx, repo)
+    check_names_callers(ctx, repo)
     check_names(ctx, repo)
     check_forecasters(ctx, repo)
     check_steps(ctx, repo)
